@@ -10,6 +10,8 @@ type StackN<const N: usize, const S: usize> = any_vec::mem::StackN<N, S>;
 
 #[cfg(feature = "lib_alloc")]
 anyvec_pbt::configs! {
+    Tr16_FixedA:   Tr16,   FixedB,          dyn Cloneable, G_ALIGN;
+    Pl16_StackA:   Pl16,   Stack<48>,       dyn None,      G_ALIGN;
     Tr2_Multi:    Tr2,    Multi, dyn Cloneable, G_LAYOUT;
     Tr64_Multi:   Tr64,   Multi, dyn Cloneable, G_LAYOUT;
     Pl16_Multi:   Pl16,   Multi, dyn Cloneable, G_LAYOUT;
@@ -22,5 +24,7 @@ anyvec_pbt::configs! {
 
 #[cfg(not(feature = "lib_alloc"))]
 anyvec_pbt::configs! {
+    Tr16_FixedA:   Tr16,   FixedB,          dyn Cloneable, G_ALIGN;
+    Pl16_StackA:   Pl16,   Stack<48>,       dyn None,      G_ALIGN;
     Tr0_Stack:    Tr0,    Stack<8>,       dyn Cloneable, G_BACKEND | G_STACK;
 }
